@@ -59,7 +59,7 @@ StepOf(r, g0, d0) ==
                             THEN "free" ELSE @[i]]]
                 d1 == ApplyStatuses(d0, evs, StatusAddrs(evs), g0.reach)
                 need == BatchNeedsRefresh(d0, evs)
-            IN <<IF GhostNeedsRefresh(g0, evs) \/ need \/ didRefresh THEN DoRefreshG(g1, r.rows, filt) ELSE g1,
+            IN <<IF GhostNeedsRefresh(g0, evs) \/ need \/ didRefresh THEN BatchRelax(g0, DoRefreshG(g1, r.rows, filt), evs) ELSE g1,
                  IF need THEN ApplyRefresh(d1, r.rows, filt, g0.reach) ELSE d1,
                  IF need THEN 1 ELSE 0>>
        [] r.op = "nodefail" -> <<GhostNodeFail(g0, r.addr), NodeFailD(d0, r.addr), 0>>
